@@ -693,6 +693,14 @@ func opCommission(w *World) *Op {
 	}
 	v := w.randVal()
 	rate := math.LegacyNewDecWithPrec(int64(w.Rnd.Intn(101)), 2)
+	switch w.Rnd.Intn(8) {
+	case 0, 1: // an explicit zero rate is a rate, not "unset"
+		rate = math.LegacyZeroDec()
+	case 2:
+		rate = math.LegacyOneDec()
+	case 3:
+		rate = math.LegacyNewDecWithPrec(1, 18)
+	}
 	w.Op("commission val%d -> %s rate=%s", v.Idx, ci.ID, rate)
 	return one("commission", v.Oper, MsgCommission(v, ci.ID, rate))
 }
